@@ -64,4 +64,33 @@ theorem exec_while_succ (f c body res n st) :
       else some (.normal (evalCond c st).2 res n []) := by
   rw [exec]; rcases evalCond c st with ⟨b, s⟩; cases b <;> rfl
 
+/-- what PT_SPAWN does with the child's result -/
+def joinPost (st : St) (l : Label) : Option Out → Option Out
+  | some (.normal st2 _ n2 t) => some (.normal (st.wrap l st2) .exited n2 t)
+  | some (.ret c st2 n2 t) =>
+      if c.blocking then some (.ret c (st.wrap l st2) n2 t) else some (.normal (st.wrap l st2) c n2 t)
+  | r => r
+
+theorem exec_join_eq (fuel l ch e res n st) :
+    exec fuel (join l ch) e res n st =
+      match entryOf ch (st.me.kid l).pt with
+      | none => some (.abort [])
+      | some e' => joinPost st l (exec fuel ch e' .yielded n (st.enter l)) := by
+  rw [exec]; cases entryOf ch (st.me.kid l).pt <;> rfl
+
+/-- what PT_CALL's loop does with the child's result; `again` = the next spin -/
+def spinPost (st : St) (k : Label) (res : Code) (n : Nat) (again : St → Option Out) : Option Out → Option Out
+  | some (.normal st2 _ _ t) => some (.normal (st.wrap k st2) res n t)
+  | some (.ret c st2 _ t) =>
+      if c.blocking then (again (st.wrap k st2)).map (Out.prepend t) else some (.normal (st.wrap k st2) res n t)
+  | r => r
+
+theorem exec_spin_zero (k ch e res n st) : exec 0 (spin k ch) e res n st = none := by rw [exec]
+theorem exec_spin_succ (f k ch e res n st) :
+    exec (f + 1) (spin k ch) e res n st =
+      match entryOf ch (st.me.kid k).pt with
+      | none => some (.abort [])
+      | some e' => spinPost st k res n (fun st' => exec f (spin k ch) none res n st') (exec f ch e' .yielded 0 (st.enter k)) := by
+  rw [exec]; cases entryOf ch (st.me.kid k).pt <;> rfl
+
 end Librfn.Model.PT
